@@ -104,6 +104,19 @@ pub fn run_check(id: &str, tier_name: &str) -> i32 {
     };
     let started = Instant::now();
     let root = scratch_root();
+    // Remove scratch directories left behind by parents that were killed.
+    if let Some(base) = root.parent() {
+        if let Ok(rd) = std::fs::read_dir(base) {
+            for ent in rd.flatten() {
+                let name = ent.file_name().to_string_lossy().into_owned();
+                if let Some(pid) = name.strip_prefix("n2verif.").and_then(|p| p.parse::<u32>().ok()) {
+                    if !Path::new(&format!("/proc/{}", pid)).exists() {
+                        let _ = std::fs::remove_dir_all(ent.path());
+                    }
+                }
+            }
+        }
+    }
     let _ = std::fs::remove_dir_all(&root);
     std::fs::create_dir_all(&root).expect("create scratch root");
 
